@@ -167,3 +167,30 @@ class _Guard:
 def short(s, n=200):
     s = s if isinstance(s, str) else repr(s)
     return s if len(s) <= n else s[:n - 3] + '...'
+
+
+# ---------------------------------------------------------------------------
+# CPU-time boxing of a single case (ITIMER_VIRTUAL counts this process's
+# user CPU time, so a loaded machine does not shorten it).
+
+import contextlib
+import signal
+
+
+class CaseTimeout(BaseException):
+    """The case used more CPU time than its box allows."""
+
+
+def _on_vtalrm(signum, frame):
+    raise CaseTimeout()
+
+
+@contextlib.contextmanager
+def cpu_timebox(seconds):
+    old = signal.signal(signal.SIGVTALRM, _on_vtalrm)
+    signal.setitimer(signal.ITIMER_VIRTUAL, seconds)
+    try:
+        yield
+    finally:
+        signal.setitimer(signal.ITIMER_VIRTUAL, 0)
+        signal.signal(signal.SIGVTALRM, old)
